@@ -171,8 +171,11 @@ impl F51x4Unreduced {
 
     #[inline]
     pub fn negate_lazy(&self) -> F51x4Unreduced {
-        let lo = u64x4::splat(36028797018963664u64);
-        let hi = u64x4::splat(36028797018963952u64);
+        // The limbs of 32p.  An unreduced product or square has limbs up to
+        // 2^55 + 2^19, which can exceed the limbs of 16p (2^55 - 304 and
+        // 2^55 - 16), so subtracting from 16p could underflow.
+        let lo = u64x4::splat(72057594037927328u64);
+        let hi = u64x4::splat(72057594037927904u64);
         F51x4Unreduced([
             lo - self.0[0],
             hi - self.0[1],
